@@ -752,6 +752,7 @@ CLI_CLASSES = [
     ("new version of combinator can't have less fields", "less-fields"),
     ("new version of combinator can't have less template arguments", "less-targs"),
     ("this reference changed to different source", "ref-changed"),
+    ("arguments were removed in compare with original source", "ref-changed"),   # F3 repair (commit 85427fb6): same class in the model
     ("arguments change its types or values", "arg-changed"),
     ("you can't add fieldmask to a field", "mask-added"), ("you can't remove fieldmask to a field", "mask-removed"),
     ("can't change reference used as a fieldmask", "mask-ref"), ("can't bit in fieldmask", "mask-bit"),
